@@ -1,5 +1,91 @@
 package main
 
-import "verif/harness/h"
+import (
+	"fmt"
+	"strings"
 
-func gen(r *h.Rand, tier string, emit func([]string)) {}
+	"verif/harness/cmd/c40/shardh"
+	"verif/harness/h"
+)
+
+// Cases: create / conflict / drop-measurement histories with restarts of every
+// kind in between.  Few measurements and fields, so that drops followed by
+// re-creation with another type (the shape behind DESIGN §6 F16) are frequent.
+func gen(r *h.Rand, tier string, emit func([]string)) {
+	n := 600
+	if tier == "thorough" {
+		n = 5000
+	}
+	points := []string{"fields.tmpWritten", "fields.renamed", "fields.renamed", "fields.idxRemoved"}
+	for c := 0; c < n; c++ {
+		g := shardh.NewG(r)
+		g.Meas = [][]string{{"cpu", "mem"}, {"m"}, {"cpu", "mem", "m3"}}[r.Intn(3)]
+		g.Fields = [][]string{{"a", "b"}, {"a", "b", "c", "v"}, {"v"}}[r.Intn(3)]
+		var ops []string
+		batch := func() string {
+			inv := h.Pick(r, []float64{0, 0.2, 0.5})
+			return g.Batch(1+r.Intn(4), inv)
+		}
+		tornJ := func() string {
+			switch r.Intn(4) {
+			case 0:
+				return fmt.Sprint(-int(r.Range(1, 12))) // all but the last bytes
+			case 1:
+				return fmt.Sprint(r.Intn(10)) // inside the size header
+			case 2:
+				return fmt.Sprint(r.Intn(200)) // anywhere, often the whole record
+			}
+			return fmt.Sprint(8 + r.Intn(30))
+		}
+		forget := func(m string) { // the generator's guess of the schema: the measurement is gone
+			for k := range g.Types {
+				if strings.HasPrefix(k, m+".") {
+					delete(g.Types, k)
+				}
+			}
+		}
+		steps := 4 + r.Intn(9)
+		for i := 0; i < steps; i++ {
+			switch x := r.Intn(100); {
+			case x < 34:
+				ops = append(ops, batch())
+			case x < 48:
+				m := h.Pick(r, g.Meas)
+				ops = append(ops, "drop "+m)
+				forget(m)
+				if r.Chance(0.6) { // re-create, probably with other types
+					ops = append(ops, batch())
+				}
+			case x < 58:
+				ops = append(ops, "reopen")
+			case x < 66:
+				ops = append(ops, "crash")
+			case x < 78:
+				ops = append(ops, "crashclose "+h.Pick(r, points))
+			case x < 87:
+				ops = append(ops, "wtorn "+tornJ()+" "+batch()[2:])
+			case x < 93:
+				m := h.Pick(r, g.Meas)
+				ops = append(ops, "droptorn "+tornJ()+" "+m)
+				if r.Chance(0.5) {
+					ops = append(ops, "drop "+m)
+				}
+				forget(m)
+			default:
+				ops = append(ops, h.Pick(r, []string{"f", "r", "snap", "logsize", "logsize"}))
+			}
+		}
+		ops = append(ops, h.Pick(r, []string{"reopen", "crash", "crashclose fields.renamed", "f"}), "f")
+		emit(ops)
+	}
+	// the F16 shape, spelled out (regression corpus in generated form)
+	emit([]string{"w m|h=a|f:i:1|10", "reopen", "drop m", "w k|h=a|g:i:1|20", "drop k",
+		"w k|h=a|g:f:3ff0000000000000|30", "w m|h=a|f:i:2|40", "crashclose fields.renamed",
+		"w m|h=a|f:f:3ff0000000000000|50", "logsize", "reopen"})
+	// drop, then unclean restart, then the other type
+	emit([]string{"w cpu|h=a|v:i:1|10 mem|h=a|v:i:2|20", "reopen", "drop cpu", "crash",
+		"w cpu|h=a|v:f:3ff0000000000000|30", "crash", "f"})
+	// malformed
+	emit([]string{"drop", "drop a-b", "wtorn x cpu|-|a:i:1|5", "wtorn 1", "droptorn 1", "crashclose nowhere", "crashclose",
+		"wtorn 01 cpu|-|a:i:1|5", "f"})
+}
